@@ -189,6 +189,9 @@ fn history_case(cx: &mut Cx) {
                     Ok(d) => d.peers.iter().flat_map(|(p, a)| a.0.iter().map(move |x| (p.to_string(), x.addr.to_string()))).collect(),
                     Err(_) => BTreeSet::new(),
                 };
+                // raw timestamps of the file's entries: one that is about to expire may legitimately be gone when the
+                // flush reads the file again a moment later (wall-clock time passes between the two loads)
+                let raw_before = read_file_entries(&path).unwrap_or_default();
                 h.op(json!({"store": si, "sync_and_flush_to_disk": with_cleanup, "mem": mem_before.len(), "file": file_before.len()}));
                 match catch(|| stores[si].sync_and_flush_to_disk(with_cleanup)) {
                     Err(p) => {
@@ -212,6 +215,11 @@ fn history_case(cx: &mut Cx) {
                 if !with_cleanup {
                     // merge never loses anything known to either side
                     for k in mem_before.union(&file_before) {
+                        let near_expiry = !mem_before.contains(k) && raw_before.get(k).map(|(_, _, ls)| now_secs().saturating_sub(*ls) + 5 >= cfg.addr_expiry_duration.as_secs()).unwrap_or(false);
+                        if near_expiry {
+                            h.cx.count("not-judged:file-entry-about-to-expire");
+                            continue;
+                        }
                         if !saved.contains_key(k) {
                             h.viol("merge-lost-entry", format!("{k:?} was known before the merge (memory: {}, file: {}) but is missing from the merged file", mem_before.contains(k), file_before.contains(k)));
                         }
